@@ -115,7 +115,9 @@ class DefaultFunctionEstimator(FunctionEstimator):
     ) -> NDArray[np.float64]:
         if np.count_nonzero(weights) < _MIN_STDDEV_REALIZATIONS:
             raise OptimizationAborted(exit_code=OptimizerExitCode.TOO_FEW_REALIZATIONS)
-        functions = np.nan_to_num(functions)
+        # Values of realizations with zero weight must not have any influence,
+        # they may be arbitrary (large) numbers:
+        functions = np.where(weights != 0, np.nan_to_num(functions), 0.0)
         *_, stddev = self._mean_stddev(functions, weights)
         return stddev
 
@@ -127,7 +129,7 @@ class DefaultFunctionEstimator(FunctionEstimator):
     ) -> NDArray[np.float64]:
         if np.count_nonzero(weights) < _MIN_STDDEV_REALIZATIONS:
             raise OptimizationAborted(exit_code=OptimizerExitCode.TOO_FEW_REALIZATIONS)
-        functions = np.nan_to_num(functions)
+        functions = np.where(weights != 0, np.nan_to_num(functions), 0.0)
         norm, mean, stddev = self._mean_stddev(functions, weights)
         mean_gradient = np.dot(gradient, weights)
         return (
